@@ -52,7 +52,8 @@ CFG = dict(
     theorems=["lock_facts_well_locked", "wellLocked_sound", "mutex_invariant", "linearizable", "linearizable'",
               "artifact_snapshot", "paramData_snapshot", "completed_before_is_visible", "snapshot_params",
               "spec_depends_on_statics", "witness_check_sound", "micro_uninterrupted", "unlocked_mixes_states",
-              "unlocked_not_linearizable", "locked_never_bad"],
+              "unlocked_not_linearizable", "locked_never_bad",
+              "critical_section_atomic", "artifactTrace_eval", "locked_artifact_is_atomic"],
     streams=[dict(name="c13", n=dict(quick=1500, thorough=40000), timeout=dict(quick=600, thorough=3600))],
     extras=[dict(name="race-detector (go build -race; stream c13; quick: GOMAXPROCS varied per history; thorough: also pinned 1,2,16)",
                  cmd=["bash", "-c", RACE_C13, "race_c13", "{work}", "{seed}", "{tier}"],
